@@ -6,7 +6,8 @@ import os
 import random
 from .. import core, activation, selftest
 
-BOUND = [0, 1, 2, 3, 0x7f, 0x80, 0xff, 0x100, 0x101, 0x7ffe, 0x7fff, 0x8000, 0x8001, 0xfffe, 0xffff]
+BOUND = [0, 1, 2, 3, 0x7f, 0x80, 0xff, 0x100, 0x101, 0x7ffe, 0x7fff, 0x8000, 0x8001, 0xfffe, 0xffff,
+         0xe000, 0xe01d, 0xe038, 0xe048, 0xe0ff, 0xe100, 0xe11d, 0xdfff, 0x1d, 0x38, 0x45, 0x54, 0x5b, 0x15b]   # extended-key prefixes of toolkits
 
 
 def sweep_plans(tier, rng):
@@ -79,7 +80,7 @@ def run(tier, seed):
         if len(hists) < 5000:
             raise core.ToolError("Gen_Input produced only %d plans" % len(hists))
         plans = [{"id": "g%d" % k, "steps": activation.happy_prefix() + h} for k, h in enumerate(hists)]
-        nsim = 60 if tier == "quick" else 600
+        nsim = 60 if tier == "quick" else 3000
         sim, walks = activation.generate(wd, 6, simulate="num=%d" % nsim, seed=seed, module="Gen_Input")
         for k, h in enumerate(walks):
             plans.append({"id": "walk%d" % k, "steps": activation.happy_prefix() + h})
